@@ -360,6 +360,53 @@ def add_bridge(rng, desc):
     desc.setdefault("_build", {})["bridge"] = {"child": c["name"], "slot": rng.randrange(len(c["parents"]))}
 
 
+def mux_failover(rng):
+    """A PMux that has failed over: the preferred (first) input is dead for one of the reasons a supply can be dead - a 0 V source, a source
+    switched off in a phase, a regulator / switch that SLEEPS in a phase on a live source, a regulator in brown-out, a passive chain below a
+    dead source - and a lower-priority input is live.  Loads behind the mux; sometimes a second load on the dead branch."""
+    why = rng.choice(["zero_source", "phased_source", "sleeping_stage", "sleeping_stage", "brownout", "chain_below_dead"])
+    vb = sd(rng, 6.0, 14.0)
+    names = ["a", "b"] if why in ("phased_source", "sleeping_stage") or rng.random() < 0.3 else []
+    comps = [{"name": "MAIN", "kind": "source", "args": {"vo": (0.0 if why in ("zero_source", "chain_below_dead") else sd(rng, 4.5, 24.0))}, "parents": []},
+             {"name": "BAT", "kind": "source", "args": {"vo": vb}, "parents": []}]
+    if why == "phased_source":
+        comps[0]["pconf"] = ["a"]
+    first = "MAIN"
+    if why in ("sleeping_stage", "brownout", "chain_below_dead"):
+        k = rng.choice(["converter", "linreg", "pswitch"]) if why != "brownout" else "linreg"
+        a = {"converter": {"vo": 3.3, "eff": ud(rng, 0.7, 0.95)}, "linreg": {"vo": 3.3}, "pswitch": {"rs": 0.05}}[k]
+        if why == "brownout":
+            a = {"vo": sd(rng, 31, 60), "vdrop": sd(rng, 25, 30)}
+        st = {"name": "PRE", "kind": k, "args": dict(a, iis=sd(rng, 1e-6, 1e-4)) if why != "brownout" else a, "parents": ["MAIN"]}
+        if why == "sleeping_stage":
+            st["pconf"] = ["a"]
+        comps.append(st)
+        first = "PRE"
+        if why == "chain_below_dead" and rng.random() < 0.6:
+            comps.append({"name": "FUSE", "kind": rng.choice(["rloss", "vloss", "pswitch"]), "parents": ["PRE"],
+                          "args": rng.choice([{"rs": 0.05}]) if True else {}})
+            if comps[-1]["kind"] == "vloss":
+                comps[-1]["args"] = {"vdrop": 0.2}
+            first = "FUSE"
+    ins = [first, "BAT"]
+    if rng.random() < 0.3:
+        comps.append({"name": "AUX", "kind": "rloss", "args": {"rs": 0.1}, "parents": ["BAT"]})
+        ins = [first, "AUX"] if rng.random() < 0.5 else [first, "BAT", "AUX"]
+    rs = [sd(rng, 0.01, 0.3) for _ in ins] if rng.random() < 0.5 else sd(rng, 0.01, 0.3)
+    comps.append({"name": "MX", "kind": "pmux", "args": {"rs": rs, "ig": sd(rng, 1e-5, 1e-3)}, "parents": ins})
+    for j in range(rng.randint(1, 3)):
+        k = rng.choice(["pload", "iload", "rload"])
+        a = {"pload": {"pwr": sd(rng, 0.05, 1.0)}, "iload": {"ii": sd(rng, 0.005, 0.2)}, "rload": {"rs": sd(rng, 20, 500)}}[k]
+        comps.append({"name": "L%d" % j, "kind": k, "args": a, "parents": ["MX"]})
+    if rng.random() < 0.4:
+        comps.append({"name": "IND", "kind": "iload", "args": {"ii": 0.002}, "parents": [first]})
+    desc = {"name": "sys", "comps": comps, "phases": {p: sd(rng, 1.0, 1e3) for p in names}}
+    if names:
+        desc["_build"] = {"phase_order": "normal"}
+    desc["_failover"] = why
+    return desc
+
+
 def decoy_table(rng, t, z):
     """another table on the same axis VALUES as t (2-D), its vi rows listed in another order, other entries"""
     vi = list(t["vi"])
@@ -403,7 +450,7 @@ def zero_vs_omitted(rng):
         par = "X1"
     names = rng.sample(["ship", "sleep", "run", "tx", "idle"], rng.randint(2, 4))
     pa, pb = rng.sample(names, 2)
-    tiny = rng.random() < 0.35
+    tiny = rng.random() < 0.5
     nl = rng.randint(1, 3)
     for j in range(nl):
         if rng.random() < 0.5:
@@ -437,7 +484,7 @@ def odd_names(rng, desc):
     comps = desc["comps"]
     taken = {c["name"] for c in comps} | {c.get("rail") for c in comps if c.get("rail")}
     for c in rng.sample(comps, min(len(comps), rng.randint(1, 3))):
-        new = rng.choice(ODD_NAMES)
+        new = rng.choice(ODD_NAMES[:5]) if rng.random() < 0.35 else rng.choice(ODD_NAMES)     # names that look like a summary row come first
         if new in taken:
             continue
         old = c["name"]
